@@ -354,6 +354,8 @@ class Check:
                 self.known_hits.append(key)
                 print(f"KNOWN-FINDING: property={self.id} {k.get('what', what)}")
             return
+        if os.environ.get("VERIF_DEBUG"):
+            print("DEBUG-VIOLATION", what[:300].replace("\n", " "))
         if len(self.violations) >= 10:
             self.violations.append(self.violations[-1])
             return
